@@ -24,6 +24,7 @@ type Profile struct {
 	DupRate  float64
 	TmoMax   int
 	Staking  bool
+	Drain    bool // always end with the capacity drain phase
 }
 
 var baseWeights = map[string]float64{
@@ -64,6 +65,10 @@ func getProfile(name string) *Profile {
 		return &Profile{Name: name, Horizon: [2]int{200, 1300}, W: cloneW(baseWeights, map[string]float64{"report": 14, "recover": 10, "store_new": 10, "complete": 20}), AdvRate: 0.05, Silence: 0.05, TmoMax: 25}
 	case "did":
 		return &Profile{Name: name, Horizon: [2]int{80, 260}, W: cloneW(baseWeights, map[string]float64{"did_bind": 22, "did_update": 9, "sid_payaddr": 6, "set_payaddr": 6, "store_new": 3, "complete": 4, "adv": 1, "report": 0, "recover": 0}), AdvRate: 0.05, Silence: 0.1, DupRate: 0.08, TmoMax: 25}
+	case "capacity":
+		// providers only: capacity is added, withdrawn in odd sizes and finally drained completely, with
+		// rewards accruing and being claimed in between; no storage orders at all
+		return &Profile{Name: name, Horizon: [2]int{30, 120}, Drain: true, W: cloneW(baseWeights, map[string]float64{"store_new": 0, "store_update": 0, "complete": 0, "ready": 0, "renew": 0, "migrate": 0, "terminate": 0, "cancel": 0, "perm": 0, "report": 0, "recover": 0, "adv": 0, "claim": 8, "add_vstorage": 10, "remove_vstorage": 10, "node_reset": 2}), Silence: 0.1, TmoMax: 25}
 	case "reward":
 		return &Profile{Name: name, Horizon: [2]int{150, 600}, W: cloneW(baseWeights, map[string]float64{"claim": 12, "add_vstorage": 8, "remove_vstorage": 8, "store_new": 6, "complete": 14}), AdvRate: 0.03, Silence: 0.1, TmoMax: 25}
 	}
@@ -142,7 +147,7 @@ func NewGen(e *Env, prof *Profile) *Gen {
 	g.horizon = g.r.Range(prof.Horizon[0], prof.Horizon[1])
 	g.quiesce = g.horizon
 	g.regenAt = g.r.Range(g.horizon/5, g.horizon*9/10)
-	g.drain = g.r.Chance(0.2)
+	g.drain = g.r.Chance(0.2) || prof.Drain
 	if NewRng(e.W.Cfg.Seed).Sub("chase12").Chance(0.25) {
 		g.chase12 = 3
 	}
@@ -338,7 +343,7 @@ func (g *Gen) Next() *Step {
 			}
 			n := free
 			if g.drainStep == 0 {
-				n = free/2 + 500_000
+				n = free/2 + []int64{500_000, 0, 1, 499_999}[NewRng(e.W.Cfg.Seed).Sub("drain"+k).Intn(4)]
 			}
 			st.Ops = append(st.Ops, Op{K: "remove_vstorage", A: a.Idx, N: n, Note: "drain"})
 		}
